@@ -103,6 +103,8 @@ enum Op {
     Child(usize),
     ChildGroup(usize),
     ChildRef(usize),
+    /// two borrowed children of the same wrapped type held at the same time
+    BothRefs(usize),
     ChildMut(usize),
     ChildGroupRef(usize),
     Consume(usize),
@@ -214,6 +216,7 @@ impl Sut {
                         v.push(Op::ChildGroup(i));
                     }
                     v.push(Op::ChildRef(i));
+                    v.push(Op::BothRefs(i));
                     v.push(Op::ChildMut(i));
                     v.push(Op::ChildGroupRef(i));
                     v.push(Op::Consume(i));
@@ -365,6 +368,21 @@ impl Sut {
                         return Err(("life:child_payloads".into(), at(&format!("obtaining an owned child created {} payloads", owned.len()))));
                     }
                     w.ents.push((ent, Meta { zst: 0, kind, owned, holds_ctx: true, val }));
+                }
+                Op::BothRefs(i) => {
+                    let base = w.ents[i].1.val;
+                    let node = match &w.ents[i].0 {
+                        Ent::Node(o) => o,
+                        _ => unreachable!(),
+                    };
+                    let l = node.child_ref();
+                    let l0 = l.val();
+                    let r = node.child_ref2();
+                    let got = (l0, r.val(), l.val());
+                    if got != (base + 1, base + 2, base + 1) {
+                        return Err(("life:borrowed_alias".into(), at(&format!("two borrowed children held together read {:?}, expected ({}, {}, {}): the second call disturbed the first result", got, base + 1, base + 2, base + 1))));
+                    }
+                    w.borrowed_calls += 2;
                 }
                 Op::ChildRef(i) | Op::ChildMut(i) | Op::ChildGroupRef(i) => {
                     let base = w.ents[i].1.val;
